@@ -62,22 +62,27 @@ pub fn describe_file(text: &str) -> Value {
 }
 
 pub fn exports(args: &Args, reg: &[TypeEntry], log: &mut Log) {
+    // the working directory lies two levels below the observed root, so that an `export_to` climbing two levels above the
+    // export directory still lands inside what the snapshots see
     let root = args.scratch.join("exports/deep/cwd");
-    std::fs::create_dir_all(&root).unwrap();
-    std::env::set_current_dir(&root).unwrap();
+    let cwd = root.join("w1/w2");
+    std::fs::create_dir_all(&cwd).unwrap();
+    std::env::set_current_dir(&cwd).unwrap();
     let mut rng = Rng::new(args.seed ^ 0xE0);
     let esm = cfg!(feature = "import-esm");
     for (k, e) in reg.iter().enumerate() {
         log.start(&e.id, &e.rust);
         clear_dir(&root);
+        std::fs::create_dir_all(&cwd).unwrap();
+        std::env::set_current_dir(&cwd).unwrap();
         verif::reset_registry();
         // directory spelling for this root
         let (spelling, dname, use_env): (String, &str, bool) = match (k + rng.below(4)) % 5 {
-            0 => (String::new(), "bindings", true), // default ./bindings through export_all()
-            1 => ("out".into(), "out", false),
-            2 => (root.join("out").to_string_lossy().to_string(), "out", false),
-            3 => ("./x/../out/.".into(), "out", false),
-            _ => ("out/".into(), "out", false),
+            0 => (String::new(), "w1/w2/bindings", true), // default ./bindings through export_all()
+            1 => ("out".into(), "w1/w2/out", false),
+            2 => (cwd.join("out").to_string_lossy().to_string(), "w1/w2/out", false),
+            3 => ("./x/../out/.".into(), "w1/w2/out", false),
+            _ => ("out/".into(), "w1/w2/out", false),
         };
         // unrelated files that must survive untouched
         let d = root.join(dname);
